@@ -6,6 +6,10 @@ A case:  {"id", "fn", "args": [arg…], "group": "emul:<name>" | "native", "unor
   arg =  {"c": value, "t": "<ddl type>"}   a column of a one-row DataFrame
          {"p": value}                      a plain Python argument (int position, format string, …)
          {"l": value}                      functions.lit(value)
+         {"e": {"fn":…, "args":[…]}}       a nested function call (composition of functions)
+         {"r": [values…], "t": "<type>"}   a MULTI-ROW column: the case is an aggregation over one group holding
+                                           exactly these rows; optional "pre" (function applied to the column
+                                           before aggregating) and "post" (function applied to the aggregate)
   fn "getItem" is Column.getItem:  col(args[0]).getItem(args[1])
 Dates travel as {"date": "YYYY-MM-DD"}; timestamps as {"ts": "YYYY-MM-DD HH:MM:SS"}.
 """
@@ -34,6 +38,19 @@ def L(v: t.Any) -> dict:
 
 def D(s: str) -> dict:
     return {"date": s}
+
+
+def E(fn: str, *args: dict) -> dict:
+    return {"e": {"fn": fn, "args": list(args)}}
+
+
+def agg_case(group: str, fn: str, rows: list, ty: str, pre: t.Optional[str] = None, post: t.Optional[str] = None, unordered: bool = False) -> dict:
+    c = {"fn": fn, "args": [{"r": rows, "t": ty}], "group": group, "unordered": unordered, "tag": "agg"}
+    if pre:
+        c["pre"] = pre
+    if post:
+        c["post"] = post
+    return c
 
 
 def case(group: str, fn: str, *args: dict, unordered: bool = False, tag: str = "") -> dict:
@@ -219,8 +236,59 @@ def native_cases() -> t.List[dict]:
     return out
 
 
+def aggregate_cases() -> t.List[dict]:
+    """aggregations over ONE group of exactly these rows: sizes 1, 2, 3, 4+ (small groups are where the
+    emulated moments — skewness, kurtosis — have their special cases), ties, negatives"""
+    out: t.List[dict] = []
+    groups = [[4.0], [1.0, 4.0], [-2.5, 7.25], [3.0, 3.0], [1.0, 2.0, 10.0], [5.0, 5.0, 5.0], [1.0, 2.0, 3.0, 10.0], [2.0, -1.0, 0.5, 8.0, 8.0, -3.0, 4.0]]
+    for xs in groups:
+        for f in ["skewness", "kurtosis", "avg", "mean", "sum", "min", "max", "count", "stddev", "stddev_samp", "stddev_pop", "variance", "var_samp", "var_pop", "median", "product", "sum_distinct", "count_distinct"]:
+            out.append(agg_case("agg", f, xs, "double"))
+        out.append(agg_case("agg", "collect_list", xs, "double", post="sort_array"))
+        out.append(agg_case("agg", "collect_set", xs, "double", post="sort_array"))
+        out.append(agg_case("agg", "collect_list", xs, "double", post="array_max"))
+    for xs in [[True], [True, False], [False, False, False]]:
+        out.append(agg_case("agg", "bool_and", xs, "boolean"))
+        out.append(agg_case("agg", "bool_or", xs, "boolean"))
+    for xs in [["b"], ["b", "a"], ["c", "a", "b", "a"]]:
+        out.append(agg_case("agg", "min", xs, "string"))
+        out.append(agg_case("agg", "max", xs, "string"))
+        out.append(agg_case("agg", "count_distinct", xs, "string"))
+        out.append(agg_case("agg", "collect_set", xs, "string", post="sort_array"))
+    return out
+
+
+def composition_cases() -> t.List[dict]:
+    """a value-producing function nested inside an array-producing function or aggregate, collected to Rows:
+    exercises sqlframe's own conversion of engine values to PySpark's Python values (naive datetimes,
+    dates, Rows) at every nesting depth"""
+    out: t.List[dict] = []
+    R = "emul:rowconv"
+    t1, t2, t3 = "2024-01-15 10:30:00", "2024-02-15 11:30:00", "2023-12-31 23:59:59"
+    for ts in (t1, t3):
+        out.append(case(R, "to_timestamp", C(ts, "string")))
+        out.append(case(R, "array", E("to_timestamp", C(ts, "string"))))
+        out.append(case(R, "array", E("to_date", C(ts[:10], "string"))))
+        out.append(case(R, "array", C({"ts": ts}, "timestamp")))
+    out.append(case(R, "array", E("to_timestamp", C(t2, "string")), E("to_timestamp", C(t1, "string"))))
+    out.append(case(R, "sort_array", E("array", E("to_timestamp", C(t2, "string")), E("to_timestamp", C(t1, "string")))))
+    out.append(case(R, "array_max", E("array", E("to_timestamp", C(t2, "string")), E("to_timestamp", C(t1, "string")))))
+    out.append(case(R, "element_at", E("array", E("to_timestamp", C(t2, "string")), E("to_timestamp", C(t1, "string"))), P(2)))
+    out.append(case(R, "array_distinct", E("array", E("to_timestamp", C(t1, "string")), E("to_timestamp", C(t1, "string")))))
+    out.append(case(R, "array", E("array", E("to_timestamp", C(t1, "string")))))
+    out.append(case(R, "array", C("x", "string"), C("y", "string")))
+    out.append(case(R, "array", C(1.5, "double"), C(2.5, "double")))
+    for rows in ([t1], [t2, t1], [t3, t1, t2]):
+        out.append(agg_case(R, "collect_list", rows, "string", pre="to_timestamp", post="sort_array"))
+        out.append(agg_case(R, "collect_set", rows, "string", pre="to_timestamp", post="sort_array"))
+        out.append(agg_case(R, "collect_list", rows, "string", pre="to_timestamp", post="array_max"))
+        out.append(agg_case(R, "max", rows, "string", pre="to_timestamp"))
+        out.append(agg_case(R, "collect_list", [r[:10] for r in rows], "string", pre="to_date", post="sort_array"))
+    return out
+
+
 def all_cases() -> t.List[dict]:
-    cs = emulation_cases() + native_cases()
+    cs = emulation_cases() + native_cases() + aggregate_cases() + composition_cases()
     for i, c in enumerate(cs):
         c["id"] = f"{i}:{c['fn']}"
     return cs
@@ -303,7 +371,9 @@ def canon(v: t.Any) -> t.Any:
     if isinstance(v, decimal.Decimal):
         return {"f": float(v)}
     if isinstance(v, datetime.datetime):
-        return {"ts": v.replace(tzinfo=None).isoformat(sep=" ")}
+        if v.tzinfo is not None:  # PySpark hands back naive datetimes: a tz-aware one is a different value
+            return {"ts": v.replace(tzinfo=None).isoformat(sep=" "), "tzinfo": str(v.tzinfo)}
+        return {"ts": v.isoformat(sep=" ")}
     if isinstance(v, datetime.date):
         return {"date": v.isoformat()}
     if isinstance(v, (bytes, bytearray)):
@@ -337,36 +407,118 @@ def same_value(a: t.Any, b: t.Any, unordered: bool = False) -> bool:
     return a == b
 
 
-def build_expr(F: t.Any, c: dict, colname: t.Dict[int, str]) -> t.Any:
-    args = []
-    for i, a in enumerate(c["args"]):
+def _walk_cols(args: t.List[dict]) -> t.Iterator[dict]:
+    for a in args:
         if "c" in a:
-            args.append(F.col(colname[id(a)]))
+            yield a
+        elif "e" in a:
+            yield from _walk_cols(a["e"]["args"])
+
+
+def _build_args(F: t.Any, args: t.List[dict], colname: t.Dict[int, str]) -> list:
+    out = []
+    for a in args:
+        if "c" in a:
+            out.append(F.col(colname[id(a)]))
         elif "l" in a:
-            args.append(F.lit(py_value(a["l"])))
+            out.append(F.lit(py_value(a["l"])))
+        elif "e" in a:
+            out.append(getattr(F, a["e"]["fn"])(*_build_args(F, a["e"]["args"], colname)))
         else:
-            args.append(py_value(a["p"]))
+            out.append(py_value(a["p"]))
+    return out
+
+
+def build_expr(F: t.Any, c: dict, colname: t.Dict[int, str]) -> t.Any:
+    args = _build_args(F, c["args"], colname)
     if c["fn"] == "getItem":
         return args[0].getItem(args[1])
     return getattr(F, c["fn"])(*args)
 
 
+def is_agg(c: dict) -> bool:
+    return bool(c["args"]) and "r" in c["args"][0]
+
+
+def evaluate_aggs(F: t.Any, create_df: t.Callable[[list, str], t.Any], cases: t.List[dict], idxs: t.List[int], out: t.List[t.Optional[dict]]) -> None:
+    """every aggregate case is one group of a (g, v) frame; one groupBy per column type computes every
+    (pre, fn, post) combination that occurs for that type"""
+    by_type: t.Dict[t.Tuple[str, t.Optional[str]], t.List[int]] = {}
+    for i in idxs:
+        # cases with a `pre` function get a frame of their own: it must only see rows it is meant for
+        by_type.setdefault((cases[i]["args"][0]["t"], cases[i].get("pre")), []).append(i)
+    for (ty, _pre), ids in by_type.items():
+        rows = [(g, py_value(v)) for g, i in enumerate(ids) for v in cases[i]["args"][0]["r"]]
+        try:
+            df = create_df(rows, f"g int, v {ty}")
+        except Exception as e:  # noqa
+            for i in ids:
+                out[i] = {"error": f"createDataFrame: {type(e).__name__}: {str(e)[:120]}"}
+            continue
+        triples: t.Dict[t.Tuple, str] = {}
+        for i in ids:
+            key = (cases[i].get("pre"), cases[i]["fn"], cases[i].get("post"))
+            triples.setdefault(key, f"e{len(triples)}")
+
+        def build(key: t.Tuple) -> t.Any:
+            pre, fn, post = key
+            x = F.col("v")
+            if pre:
+                x = getattr(F, pre)(x)
+            x = getattr(F, fn)(x)
+            if post:
+                x = getattr(F, post)(x)
+            return x.alias(triples[key])
+
+        def run(keys: t.List[t.Tuple]) -> None:
+            exprs, live = [], []
+            for k in keys:
+                try:
+                    exprs.append(build(k))
+                    live.append(k)
+                except Exception as e:  # noqa
+                    for i in ids:
+                        if (cases[i].get("pre"), cases[i]["fn"], cases[i].get("post")) == k:
+                            out[i] = {"error": f"build: {type(e).__name__}: {str(e)[:160]}"}
+            if not live:
+                return
+            try:
+                res = {r[0]: r for r in df.groupBy("g").agg(*exprs).collect()}
+                for g, i in enumerate(ids):
+                    k = (cases[i].get("pre"), cases[i]["fn"], cases[i].get("post"))
+                    if k in live:
+                        out[i] = {"value": canon(res[g][1 + live.index(k)])} if g in res else {"error": "group missing from the result"}
+            except Exception as e:  # noqa
+                if len(live) == 1:
+                    for i in ids:
+                        if (cases[i].get("pre"), cases[i]["fn"], cases[i].get("post")) == live[0]:
+                            out[i] = {"error": f"run: {type(e).__name__}: {str(e).strip().splitlines()[0][:160] if str(e).strip() else ''}"}
+                else:
+                    mid = len(live) // 2
+                    run(live[:mid])
+                    run(live[mid:])
+
+        run(list(triples))
+
+
 def evaluate(F: t.Any, create_df: t.Callable[[list, str], t.Any], cases: t.List[dict], batch: int = 60) -> t.List[dict]:
     """returns per case {"value": canon} or {"error": "Type: msg"}"""
     out: t.List[t.Optional[dict]] = [None] * len(cases)
+    agg_idx = [i for i, c in enumerate(cases) if is_agg(c)]
+    if agg_idx:
+        evaluate_aggs(F, create_df, cases, agg_idx, out)
 
     def run(idxs: t.List[int]) -> None:
         cols: t.List[t.Tuple[str, str, t.Any]] = []
         colname: t.Dict[int, str] = {}
         seen: t.Dict[str, str] = {}
         for i in idxs:
-            for a in cases[i]["args"]:
-                if "c" in a:
-                    key = repr((a["t"], a["c"]))
-                    if key not in seen:
-                        seen[key] = f"v{len(cols)}"
-                        cols.append((seen[key], a["t"], py_value(a["c"])))
-                    colname[id(a)] = seen[key]
+            for a in _walk_cols(cases[i]["args"]):
+                key = repr((a["t"], a["c"]))
+                if key not in seen:
+                    seen[key] = f"v{len(cols)}"
+                    cols.append((seen[key], a["t"], py_value(a["c"])))
+                colname[id(a)] = seen[key]
         if not cols:
             cols.append(("v0", "int", 0))
         schema = ", ".join(f"{n} {ty}" for n, ty, _ in cols)
@@ -398,6 +550,7 @@ def evaluate(F: t.Any, create_df: t.Callable[[list, str], t.Any], cases: t.List[
                 run(live[:mid])
                 run(live[mid:])
 
-    for s in range(0, len(cases), batch):
-        run(list(range(s, min(len(cases), s + batch))))
+    scalar_idx = [i for i, c in enumerate(cases) if not is_agg(c)]
+    for s in range(0, len(scalar_idx), batch):
+        run(scalar_idx[s : s + batch])
     return [o if o is not None else {"error": "not evaluated"} for o in out]
